@@ -71,7 +71,7 @@ def r37_status_changes_logged(ctx):
     # after (or instead of) the count - report/dump/json, interrupt handling - may only add 'log' lines, which carry no tallies.
     n_snap = 0
     for f in ctx.repo.funcs.values():
-        if not f.module.name.startswith('droop'):
+        if not (f.module.name.startswith('droop') or f.module.name == 'Droop'):
             continue
         for c in f.own_nodes():
             if not (isinstance(c, ast.Call) and isinstance(c.func, ast.Attribute) and c.func.attr in ('logAction', 'action') and c.args):
@@ -569,6 +569,11 @@ def r41_renderers_read_record(ctx):
             for node in g.own_nodes():
                 if isinstance(node, ast.Attribute) and isinstance(node.ctx, ast.Load):
                     p = ctx.canon(node, g)
+                    if p in ('E.V.exact', 'E.V.quasi_exact', 'E.V.name') or (node.attr in ('exact', 'quasi_exact') and ctx.canon(node.value, g) == 'E.V'):
+                        n += 1
+                        ctx.bad(R, node, g, 'renderers take their figures from the record, not from the live election object',
+                                '%s makes a printed figure depend on a property of the arithmetic class (`%s`): the record holds the figure, the rendering prints it'
+                                % (g.qualname, unparse(node)))
                     if p and p.startswith('E.') and p.count('.') == 1:
                         n += 1
                         ctx.check(p in allowed, R, node, g,
